@@ -104,6 +104,51 @@ static bool checkOneImpl(const std::vector<ll> &u, const std::vector<ll> &v, con
   return true;
 }
 
+// The solver class itself (sorted positions, positive supplies and demands): run() prepares all its state, so running the
+// same object again must reproduce the same optimal plan and the same rounded assignment.
+static bool checkSolverRerun(std::vector<ll> u, std::vector<ll> v, std::vector<ll> s, std::vector<ll> d, CaseResult &r) {
+  std::sort(u.begin(), u.end());
+  std::sort(v.begin(), v.end());
+  for (auto &x : s) x = std::max<ll>(x, 1);
+  for (auto &x : d) x = std::max<ll>(x, 1);
+  ll ts = 0, td = 0;
+  for (auto x : s) ts += x;
+  for (auto x : d) td += x;
+  if (ts > td) d.back() += ts - td;
+  std::string desc = pbStr(u, v, s, d);
+  try {
+    std::vector<ll> u2 = u, v2 = v, s2 = s, d2 = d;
+    Transportation1dSolver solver(std::move(u2), std::move(v2), std::move(s2), std::move(d2));
+    solver.check();
+    solver.run();
+    auto sol1 = solver.computeSolution();
+    auto as1 = solver.computeAssignment();
+    int reruns = 2;
+    for (int k = 0; k < reruns; ++k) {
+      solver.run();
+      auto sol2 = solver.computeSolution();
+      auto as2 = solver.computeAssignment();
+      if (sol2 != sol1) {
+        ll c1 = 0, c2 = 0;
+        for (auto [i, j, a] : sol1) c1 += a * std::llabs(u[i] - v[j]);
+        for (auto [i, j, a] : sol2) c2 += a * std::llabs(u[i] - v[j]);
+        r.fail("C14:second-run-of-the-solver-differs", "run " + std::to_string(k + 2) + " on the same solver object gives another plan (cost " + std::to_string(c2) + ", first run " + std::to_string(c1) + "): " + desc);
+        return false;
+      }
+      if (as2 != as1) { r.fail("C14:second-run-of-the-solver-differs", "run " + std::to_string(k + 2) + " gives another rounded assignment: " + desc); return false; }
+    }
+    ll cst = 0;
+    for (auto [i, j, a] : sol1) cst += a * std::llabs(u[i] - v[j]);
+    ll opt = lemonOpt(u, v, s, d);
+    if (opt >= 0 && opt != cst) { r.fail("C14:plan-not-minimum-cost", "solver object: plan cost " + std::to_string(cst) + " optimum " + std::to_string(opt) + ": " + desc); return false; }
+    r.count("solver_objects_rerun");
+  } catch (const std::exception &e) {
+    r.fail("C14:solver-threw-on-a-valid-instance", std::string("solver object: ") + e.what() + ": " + desc);
+    return false;
+  }
+  return true;
+}
+
 static void randomCase(Rng &rng, CaseResult &r, bool zeros) {
   int S = (int)rng.range(1, rng.chance(0.2) ? 40 : 6), K = (int)rng.range(1, rng.chance(0.2) ? 12 : 5);
   ll pmax = rng.chance(0.3) ? 5 : (rng.chance(0.5) ? 100 : 100000000);
@@ -129,6 +174,7 @@ static void randomCase(Rng &rng, CaseResult &r, bool zeros) {
   if (r.dumpOnly) return;
   bool usedBalance = false;
   checkOne(u, v, s, d, r, usedBalance);
+  if (r.viol.empty() && !huge && rng.chance(0.5)) checkSolverRerun(u, v, s, d, r);
   bool hasZero = false;
   for (auto x : s) if (x == 0) hasZero = true;
   for (auto x : d) if (x == 0) hasZero = true;
